@@ -10,6 +10,7 @@ import (
 	"math"
 	"os"
 	"runtime/debug"
+	"strconv"
 	"testing"
 )
 
@@ -157,6 +158,12 @@ func IteU(c bool, a, b uint64) uint64 {
 		return a
 	}
 	return b
+}
+
+// Decimal returns the correctly rounded float64 of m * 10^e (|e| <= 48).
+func Decimal(m int64, e int) float64 {
+	f, _ := strconv.ParseFloat(fmt.Sprintf("%de%d", m, e), 64)
+	return f
 }
 
 // SymbolicMapOrder makes every later `range` over a map iterate in an arbitrary order chosen
